@@ -8,15 +8,25 @@
 (*   hframe  the host terminal after the emulator was drawn into a host      *)
 (*           Vaxis of the same size (host bytes through a second RefTerm).   *)
 (* And at "ready" the capabilities the application derived from the          *)
-(* emulator's replies must be exactly those the emulator implements (adv).   *)
-EXTENDS RefTerm, Caps, TLC, Json, IOUtils
+(* emulator's replies must be exactly those the emulator implements (adv),   *)
+(* and a graphics feature among them must take what the application then     *)
+(* sends ("images": every picture the application drew with the protocol it  *)
+(* chose is held by the emulator, at the cell it was drawn at).              *)
+(*                                                                           *)
+(* Transport fact: a print command marked "cut" is a grapheme cluster that   *)
+(* the emulator's parser received in two reads.  A byte-stream parser cannot *)
+(* wait for the rest of a cluster, so such a cluster reaches the emulator in *)
+(* parts; what that does to the cells at and to the right of the cluster in  *)
+(* its row is classified apart (why = "emulator-cells-cut-cluster") from     *)
+(* every other difference.  Nothing else is excused: a frame without a cut   *)
+(* cluster, and every cell not to the right of one, is judged as usual.      *)
+EXTENDS RoundTrip, Caps, TLC, Json, IOUtils
 
 Trace == ndJsonDeserialize(IOEnv.TRACE)
-VARIABLES l, t, th, adv, failed
-vars == <<l, t, th, adv, failed>>
+VARIABLES l, t, th, adv, failed, cuts
+vars == <<l, t, th, adv, failed, cuts>>
 
-SeqToSet(s) == {s[k] : k \in 1..Len(s)}
-Init == l = 1 /\ t = InitTerm(1, 1, FALSE) /\ th = InitTerm(1, 1, FALSE) /\ adv = {} /\ failed = FALSE
+Init == l = 1 /\ t = InitTerm(1, 1, FALSE) /\ th = InitTerm(1, 1, FALSE) /\ adv = {} /\ failed = FALSE /\ cuts = {}
 
 Reject(e, why, detail) ==
   /\ failed' = TRUE
@@ -30,37 +40,46 @@ EmuTerm(e, base) ==
                !.vis = (e.ecur[1] = 1), !.r = e.ecur[2], !.c = e.ecur[3], !.shape = e.ecur[4], !.pw = FALSE]
 EmuShape(e, base) == Len(e.grid) = base.rows /\ \A y \in 1..Len(e.grid) : Len(e.grid[y]) = base.cols
 
+IsCut(e) == e.ev = "print" /\ "cut" \in DOMAIN e
+
 Next ==
   /\ l <= Len(Trace)
   /\ l' = l + 1
   /\ LET e == Trace[l] IN
      IF e.ev = "reset" THEN
         /\ t' = InitTerm(e.rows, e.cols, e.xw) /\ th' = InitTerm(e.rows, e.cols, FALSE)
-        /\ adv' = SeqToSet(e.adv) /\ failed' = FALSE
-     ELSE IF failed THEN UNCHANGED <<t, th, adv, failed>>
+        /\ adv' = SeqToSet(e.adv) /\ failed' = FALSE /\ cuts' = {}
+     ELSE IF failed THEN UNCHANGED <<t, th, adv, failed, cuts>>
      ELSE IF e.ev = "ready" THEN
-        /\ UNCHANGED <<t, th, adv>>
+        /\ UNCHANGED <<t, th, adv, cuts>>
         /\ IF e.can = Established(adv) THEN UNCHANGED failed
            ELSE Reject(e, "capabilities", {f \in DOMAIN e.can : e.can[f] # Established(adv)[f]})
+     ELSE IF e.ev = "images" THEN
+        /\ UNCHANGED <<t, th, adv, cuts>>
+        /\ IF ImagesWhy(adv, e) = "ok" THEN UNCHANGED failed
+           ELSE Reject(e, ImagesWhy(adv, e), [proto |-> e.proto, at |-> e.at, sent |-> e.sent, got |-> e.got])
      ELSE IF e.ev = "frame" THEN
-        /\ UNCHANGED <<t, th, adv>>
+        /\ UNCHANGED <<t, th, adv, cuts>>
         /\ IF FrameOK(t, e) THEN UNCHANGED failed ELSE Reject(e, "stream-" \o FrameWhy(t, e), FirstBad(t, e))
      ELSE IF e.ev = "emu" THEN
-        /\ UNCHANGED <<t, th, adv>>
+        /\ UNCHANGED <<t, th, adv, cuts>>
         /\ IF ~EmuShape(e, t) THEN Reject(e, "emulator-grid-shape", <<>>)
            ELSE LET et == EmuTerm(e, t) IN
                 IF ScreenOK(et, e.app, e.rgb, e.su) /\ CursorOK(et, e.cur) THEN UNCHANGED failed
-                ELSE Reject(e, IF ~CursorOK(et, e.cur) THEN "emulator-cursor" ELSE "emulator-cells", FirstBad(et, e))
+                ELSE Reject(e, IF ~CursorOK(et, e.cur) THEN "emulator-cursor"
+                               ELSE IF CutExplains(cuts, BadCells(et, e)) THEN "emulator-cells-cut-cluster"
+                               ELSE "emulator-cells", FirstBad(et, e))
      ELSE IF e.ev = "hframe" THEN
-        /\ UNCHANGED <<t, th, adv>>
+        /\ UNCHANGED <<t, th, adv>> /\ cuts' = {}
         /\ IF ScreenOK(th, e.app, e.rgb, e.su) /\ CursorOK(th, e.cur) /\ FlushClean(th) THEN UNCHANGED failed
            ELSE Reject(e, IF ~ScreenOK(th, e.app, e.rgb, e.su) THEN "host-cells" ELSE "host-cursor", FirstBad(th, e))
      ELSE IF e.ev = "host" THEN
-        /\ th' = Step(th, e.c) /\ UNCHANGED <<t, adv, failed>>
+        /\ th' = Step(th, e.c) /\ UNCHANGED <<t, adv, failed, cuts>>
      ELSE IF e.ev = "panic" THEN
-        /\ UNCHANGED <<t, th, adv>> /\ Reject(e, "panic", e.msg)
+        /\ UNCHANGED <<t, th, adv, cuts>> /\ Reject(e, "panic", e.msg)
      ELSE
         /\ t' = Step(t, e) /\ UNCHANGED <<th, adv, failed>>
+        /\ cuts' = IF IsCut(e) THEN cuts \cup {Landing(t, e.w)} ELSE cuts
 
 Spec == Init /\ [][Next]_vars
 Consumed == TLCGet("stats").diameter - 1 = Len(Trace)
